@@ -104,7 +104,7 @@ def check_index_array_ownership(b, rng, prop):
     """The index of x[idx] / x[idx] = y is part of the RECORDED computation: if the caller changes the index array (or list) afterwards,
     backward() must still differentiate what was computed.  C01: getitem; C05: setitem."""
     for kind in (("getitem",) if prop == "C01" else ("setitem", "setitem-view")):
-        for container in ("int-array", "bool-array", "list", "tuple-of-arrays"):
+        for container in ("int-array", "bool-array", "list", "tuple-of-arrays", "int-tensor", "bool-tensor", "tuple-of-tensors"):
             xv = rng.uniform(1, 2, size=(5,))
             x0 = mg.tensor(xv.copy())
             x = x0 * 1.0
@@ -115,6 +115,12 @@ def check_index_array_ownership(b, rng, prop):
                 idx = np.array([True, True, False, False, False]); alt = np.array([False, False, False, True, True])
             elif container == "list":
                 idx = [0, 1]; alt = [3, 4]
+            elif container == "int-tensor":
+                idx = mg.tensor([0, 1]); alt = np.array([3, 4])
+            elif container == "bool-tensor":
+                idx = mg.tensor([True, True, False, False, False]); alt = np.array([False, False, False, True, True])
+            elif container == "tuple-of-tensors":
+                idx = (mg.tensor([0, 1]),); alt = (np.array([3, 4]),)
             else:
                 idx = (np.array([0, 1]),); alt = (np.array([3, 4]),)
             desc = dict(statement=kind, index=container, then="the caller overwrites the index object before backward()")
@@ -133,8 +139,8 @@ def check_index_array_ownership(b, rng, prop):
                     exp_x = w.copy(); exp_x[[0, 1]] = 0.0
                     exp_y = w[[0, 1]]
                 # the caller re-uses its index object for something else
-                if container in ("int-array", "bool-array"):
-                    idx[...] = alt
+                if container in ("int-array", "bool-array", "int-tensor", "bool-tensor"):
+                    idx[...] = alt  # (for a tensor: an in-place update of a constant index tensor)
                 elif container == "list":
                     idx[:] = alt
                 else:
